@@ -67,8 +67,8 @@ def unsorted_source_cases(tier):
 
 def systematic(tier):
     cs = [c for c in templates.c01_cases(tier)]
-    if tier == "quick":
-        cs = cs[::14]
+    # every form of every program costs one fresh interpreter: the templates are sub-sampled in both tiers
+    cs = cs[::14] if tier == "quick" else cs[::9]
     cs = big_cases(tier) + unsorted_source_cases(tier) + cs
     return [{"batch": cs[i : i + BATCH]} for i in range(0, len(cs), BATCH)]
 
@@ -82,7 +82,7 @@ def strategy(tier):
 
 
 def n_random(tier):
-    return 24 if tier == "quick" else 150
+    return 24 if tier == "quick" else 60
 
 
 def form_of(coll, form):
